@@ -3,6 +3,7 @@ package sim
 import (
 	"encoding/json"
 	"fmt"
+	"sort"
 	"strings"
 	"time"
 )
@@ -820,6 +821,21 @@ func (d *Driver) judgeC11() {
 					if other != g1 && other.TRet >= g1.TInvoke && other.TRet <= end.TRet+time.Millisecond && (other.Err != nil || other.Fault != "") {
 						overlap = true
 					}
+					// ... or a verification whose validation read was lost or slow: it gives up when its
+					// own 2 s budget ends, possibly in the middle of this (later) verification
+					if other != g1 && other.Err == nil && other.TRet >= 0 {
+						var v2 *Op
+						for _, op := range d.h.Ops {
+							if op.Inst == in.idx && op.Gen == o.gen && op.Kind == "get" && strings.HasPrefix(op.Caller, "validateToken") && op.SInvoke >= other.SRet && op.TInvoke <= other.TRet+d.stallIn(in.idx, other.TRet, other.TRet+time.Second) {
+								v2 = op
+								break
+							}
+						}
+						bad := v2 == nil || v2.TRet < 0 || v2.Fault != "" || v2.Err != nil || v2.TRet-other.TInvoke >= 2*time.Second
+						if bad && other.TInvoke <= end.TRet && other.TInvoke+3*time.Second >= g1.TInvoke {
+							overlap = true
+						}
+					}
 				}
 				if overlap {
 					d.skip("C11", "overlapping-verifications")
@@ -1027,6 +1043,37 @@ func (d *Driver) judgeC06() {
 		if cur < d.endAt {
 			vacs = append(vacs, vac{cur, d.endAt + time.Hour})
 		}
+		// "One of those instances becomes leader": a claim that rises inside a vacancy fills it, even
+		// if the claimant's record is already gone again (its Create was applied just before the
+		// record was removed; how long such a claim may stand is C03's bound). The vacancy is split
+		// at the claim: the part after the claim's falling edge is judged on its own.
+		var split []vac
+		for _, v := range vacs {
+			a := v.a
+			var inside []*Term
+			for _, t := range terms {
+				if in := d.inst(t.Inst); in != nil && in.cfg.Group == g && t.Start > v.a && t.Start < v.b {
+					inside = append(inside, t)
+				}
+			}
+			sort.Slice(inside, func(i, j int) bool { return inside[i].Start < inside[j].Start })
+			open := true
+			for _, t := range inside {
+				if t.Start < a {
+					continue
+				}
+				split = append(split, vac{a, t.Start})
+				if t.Fall == nil {
+					open = false
+					break
+				}
+				a = t.End
+			}
+			if open && a < v.b {
+				split = append(split, vac{a, v.b})
+			}
+		}
+		vacs = split
 		for _, v := range vacs {
 			// earliest deadline over the candidates that are healthy for their whole window
 			var dl time.Duration = -1
@@ -1119,7 +1166,7 @@ func (d *Driver) judgeC06() {
 			}
 			d.judgedInc("C06")
 			if v.b > dl {
-				d.h.violate("C06", "vacancy-not-filled-in-time", fmt.Sprintf("group %s vacant from %v; healthy candidate i%d had to be leader by %v (500ms + 100ms + latencies) but no record was created before %v", g, v.a, who, dl, minDur(v.b, d.endAt)), dl, 0)
+				d.h.violate("C06", "vacancy-not-filled-in-time", fmt.Sprintf("group %s vacant from %v; healthy candidate i%d had to be leader by %v (500ms + 100ms + latencies) but nobody claimed leadership (and no record was created) before %v", g, v.a, who, dl, minDur(v.b, d.endAt)), dl, 0)
 			}
 		}
 	}
